@@ -73,6 +73,7 @@ def run(scn, stats):
     drv.observers.append(late)
     labels = set()
     reran = collections.Counter()  # (task, item) -> failed attempts that were re-executed
+    owed = set()  # failed executions selected by a rerun
     rounds = 0
     skip_twin = False
     try:
@@ -191,7 +192,10 @@ def run(scn, stats):
                 stats.excluded["R1"] += 1
                 return
             # count re-executed attempts: every dispatch of a failed task/item beyond the first run
-            failed_execs = {(t, rt_) for t, rt_ in failed}
+            # (in the busy variant a round can end - the workflow fails again - before a task selected by the
+            # rerun was offered: it is still owed its re-execution in the next round)
+            owed.update((t, rt_) for t, rt_ in failed)
+            failed_execs = set(owed)
             if tasks is None and late_failed - {(t, rt_) for t, rt_ in failed}:
                 # a *handled* failure that was reported after the workflow had stopped is flagged terminal
                 # by the engine and re-executed by a default rerun together with its successors; whether
